@@ -273,7 +273,7 @@ static void fir_gen(Ctx& ctx) {
                 }
             }
     // (2) rapidcheck over everything up to nh*nx ~ 4e6
-    ctx.rc("random", ctx.by_tier(120000, 1000000), [&]() {
+    ctx.rc("random", ctx.by_tier(120000, 2000000), [&]() {
         int nh = pick_nh();
         int m = pick(0, 19);
         int nx = m == 0 ? 0 : m <= 2 ? pick(1, nh + 1) : m <= 9 ? nh + pick_log(1, std::min(20000, 4000000 / nh)) : pick_log(1, std::min(20000, 4000000 / nh));
@@ -426,7 +426,7 @@ static void fftf_gen(Ctx& ctx) {
         }
     }
     // (2) rapidcheck
-    ctx.rc("random", ctx.by_tier(80000, 640000), [&]() {
+    ctx.rc("random", ctx.by_tier(80000, 1280000), [&]() {
         int nh = pick_nh();
         int k2 = 1;
         while (k2 < 2 * nh) k2 *= 2;
